@@ -8,10 +8,16 @@ def main():
     args = [a for a in sys.argv[1:] if not a.startswith('--')]
     keep = '--keep' in sys.argv
     rl = 20
+    only = specs = None
+    BASE_VC = ['error', 'constants', 'utils', 'types']
+    BASE_SPEC = ['verif_extern', 'verif_spec', 'verif_types', 'verif_prelude', 'spec_poly1305', 'spec_aead', 'spec_curve', 'spec_hash']
     for a in sys.argv[1:]:
         if a.startswith('--rlimit='): rl = float(a.split('=')[1])
+        if a.startswith('--only='): only = BASE_VC + a.split('=')[1].split(',')
+        if a.startswith('--specs='): specs = BASE_SPEC + a.split('=')[1].split(',')
+    if only is not None and specs is None: specs = BASE_SPEC
     engine.ensure_deps()
-    scratch, index = engine.snapshot_and_annotate()
+    scratch, index = engine.snapshot_and_annotate(only=only, specs=specs)
     try:
         for l in index['lost']:
             print('LOST', l)
